@@ -40,6 +40,10 @@ def inject(dst, names):
                 raise FileNotFoundError(f"owner module {spec['owner']} missing")
             with open(owner, "a") as f:
                 f.write("\n" + spec["decl"] + "\n")
+            if not spec.get("src"):
+                notes.append(key)
+                continue
+            os.makedirs(os.path.dirname(os.path.join(dst, spec["dest"])), exist_ok=True)
             shutil.copy(os.path.join(HERE, "harness", spec["src"]), os.path.join(dst, spec["dest"]))
             for path, anchor_re, attr in spec.get("attrs", []):
                 p = os.path.join(dst, path)
@@ -76,7 +80,7 @@ def parse_kani(out):
     return res
 
 
-def run_one(dst, nm, tier):
+def run_one(dst, nm, tier, unwind_is_violation=()):
     H = HARNESSES[nm]
     env = dict(os.environ, CARGO_NET_OFFLINE="true", CARGO_TARGET_DIR=os.path.join(ROOT, ".cache", "kani-target"))
     cmd = ["cargo", "kani", "-p", H["crate"], "-Z", "function-contracts", "-Z", "stubbing", "--harness", H.get("harness", nm),
@@ -111,6 +115,10 @@ def run_one(dst, nm, tier):
         if real:
             r["status"] = "fail"
             r["failures"] = real
+        elif nm in unwind_is_violation:
+            # the bound covers every loop of the correct code for the stated text sizes: exceeding it is non-termination
+            r["status"] = "fail"
+            r["failures"] = [dict(f, description="loop does not terminate within the stated bound: " + f["description"]) for f in r["failures"]][:3]
         else:
             r["status"] = "inconclusive"
             r["why"] = "unwinding assertion failed (bound too small for this tree)"
@@ -123,7 +131,7 @@ def run_one(dst, nm, tier):
     return r
 
 
-def run_harnesses(repo, names, tier):
+def run_harnesses(repo, names, tier, unwind_is_violation=()):
     if not names:
         return []
     try:
@@ -138,10 +146,10 @@ def run_harnesses(repo, names, tier):
         # group by crate: first one builds deps, the rest run in parallel
         import concurrent.futures as cf
         results = []
-        first = run_one(dst, names[0], tier)
+        first = run_one(dst, names[0], tier, unwind_is_violation)
         results.append(first)
         with cf.ThreadPoolExecutor(max_workers=int(os.environ.get("VERIF_KANI_JOBS", "6"))) as ex:
-            results += list(ex.map(lambda n: run_one(dst, n, tier), names[1:]))
+            results += list(ex.map(lambda n: run_one(dst, n, tier, unwind_is_violation), names[1:]))
         return results
     finally:
         shutil.rmtree(dst, ignore_errors=True)
